@@ -12,7 +12,7 @@
                val = z<HexZ> | n<HexN> | b0 | b1 | x<hex> | M... | E <key> <val>
    Ops:
      schema <id> <name> <schema tokens>          | ok            (stored; later ops refer to <id>)
-     enc <id> <tid> <f|s> <value>                | ok <xbytes> <size hex>  or  utf8
+     enc <id> <tid> <f|s> <value>                | ok <xbytes> <size hex> <v1|v0: msg_valid>  or  utf8
      dec <id> <tid> <f|s> <limit hex> <xbytes>   | ok <value>  or  e<code> (1 parse 2 depth 3 utf8)
    Other families may call [Fam_msg.schema_of_id], [parse_value], [value_tokens]. *)
 open Util
@@ -112,6 +112,33 @@ let value_tokens (v : value) : string list =
       add (hex_of_bytes u) in
   go v; Stdlib.List.rev !out
 
+(* Observation canonicalisation.  protoreflect.Value holds a float32 as a float64, and the
+   float32 -> float64 conversion turns a signalling NaN into a quiet one, so no dump made through
+   the reflection API (and no dynamicpb message) can show the signalling payload of a decoded
+   float32.  The decoded model value is projected the same way before it is printed. *)
+let quiet32 (n : BinNums.coq_N) : BinNums.coq_N =
+  let i = int_of_n n in
+  if i land 0x7f800000 = 0x7f800000 && i land 0x007fffff <> 0 then n_of_int (i lor 0x00400000) else n
+let rec canon_value (s : schema) (tid : Datatypes.nat) (v : value) : value =
+  match v with
+  | VMsg (fs, u) ->
+    let md = Stdlib.List.nth_opt s (int_of_nat tid) in
+    let md = match md with Some m -> m | None -> [] in
+    let field (num, vs) =
+      match MsgSchema.msg_find_field md num with
+      | None -> (num, vs)
+      | Some fd ->
+        let elem v = match fd.f_kind, v with
+          | KS SkFloat, VS (SN n) -> VS (SN (quiet32 n))
+          | (KMsg t | KGrp t), VMsg _ -> canon_value s t v
+          | _, _ -> v in
+        let one v = match v with
+          | VEntry (k, v') -> VEntry (k, elem v')
+          | _ -> elem v in
+        (num, Stdlib.List.map one vs) in
+    VMsg (Stdlib.List.map field fs, u)
+  | _ -> v
+
 let nat_cache : (int, Datatypes.nat) Hashtbl.t = Hashtbl.create 8
 let nat_cached i = match Hashtbl.find_opt nat_cache i with
   | Some n -> n | None -> let n = nat_of_int i in Hashtbl.replace nat_cache i n; n
@@ -123,12 +150,18 @@ let handle op args =
     let s = schema_of_id id and tid = nat_cached (int_of_string tid) in
     let (v, _) = parse_value toks in
     if not (MsgEnc.msg_enc_utf8_ok (mode = "s") s tid v) then ["utf8"]
-    else ["ok"; hex_of_bytes (MsgEnc.msg_encode s tid v); hex_of_n (MsgEnc.msg_size_body s tid v)]
+    else ["ok"; hex_of_bytes (MsgEnc.msg_encode s tid v); hex_of_n (MsgEnc.msg_size_body s tid v);
+          (* the canonical-value predicate of the C03 theorem holds of what the implementation holds *)
+          if MsgValid.msg_valid (mode = "s") s (nat_cached 10000) tid v then "v1" else "v0"]
   | "dec", [id; tid; mode; limit; b] ->
     let s = schema_of_id id and tid = nat_cached (int_of_string tid) in
     (match MsgDec.msg_decode (mode = "s") s (nat_cached (int_of_n (n_of_hex limit))) tid (bytes_of_hex b) with
-     | MsgDec.DOk v -> "ok" :: value_tokens v
+     | MsgDec.DOk v -> "ok" :: value_tokens (canon_value s tid v)
      | MsgDec.DErr e -> ["e" ^ string_of_int (int_of_n (MsgDec.derr_code e))])
   | _ -> failwith ("msg: unknown op " ^ op)
+
+(* deeply nested inputs (10000 levels) recurse deeply in the extracted model; a larger minor heap
+   keeps the number of stack scans by the minor collector small *)
+let () = Gc.set { (Gc.get ()) with Gc.minor_heap_size = 8 * 1024 * 1024 }
 
 let () = register "msg" handle
